@@ -389,9 +389,9 @@ def run_check(prop, tier):
     json.dump(ev, open(os.path.join(VERIF, "evidence", f"{prop}.json"), "w"), indent=1, default=str)
     print(f"[{prop} {tier}] evaluations={evaluations} distinct_nontrivial={nt} violations={nviol} known={len(seen_known)} "
           f"races raw/dedup={races_raw}/{len(race_sigs)} hooks={'on' if hooks else 'OFF'} wall={wall:.1f}s exit={rc}")
-    keys = sorted(counters)[:60]
+    keys = [k for k in sorted(counters) if ".ev." not in k and ".ctor." not in k][:24]
     if keys:
-        print("  observed: " + ", ".join(f"{k}={counters[k]}" for k in keys))
+        print("  observed: " + ", ".join(f"{k.replace('Test','',1)}={counters[k]}" for k in keys))
     # remove scratch output unless something needs a look
     if rc == 0 and not os.environ.get("VERIF_KEEP"):
         subprocess.run(["rm", "-rf", tmpdir])
